@@ -73,6 +73,13 @@ func NewPackScanner(hashSize int, pack, idx, rev billy.File) (*PackScanner, erro
 		return nil, err
 	}
 
+	// The rev file holds exactly one 4-byte position per object plus
+	// header and two trailing hashes (load_revindex_from_disk).
+	if want := revHeader + s.count*4 + 2*s.hashSize; len(s.revMmap) != want {
+		_ = s.Close()
+		return nil, fmt.Errorf("malformed rev file: size %d, expected %d for %d objects", len(s.revMmap), want, s.count)
+	}
+
 	return s, nil
 }
 
